@@ -42,6 +42,14 @@ def gen(rng, n):
             d["NDGRAM"] = rng.range(1, 5)
         if rng.chance(1, 4):
             d["ECHO_BYTES"] = rng.choice([1, 2000])
+        if d["ZERO_RTT"] == 2 and rng.chance(1, 3):
+            # early operations whose control frames must vanish with the rejection
+            d["NO_REDO"] = 1
+            d["NBIDI"] = rng.range(1, 2)
+            d["EARLY_STOP"] = rng.below(2)
+            if rng.chance(1, 2):
+                d["RESET_AT_BYTES"] = 1
+            d.pop("NDGRAM", None)
         w = min(d.get("SERVER_RWND", 1 << 40), d.get("SEND_WINDOW", 1 << 40))
         if d["STREAM_BYTES"] > 20 * w:
             d["STREAM_BYTES"] = 20 * w
